@@ -143,7 +143,7 @@ fn gen_history(rng: &mut Rng, m: &mut GModel, huge: bool, free: bool) -> Vec<Str
             let vc = new_vc[d];
             let streams = canonical_streams(rng, &mesh.decl, &strides, vc);
             let ni = new_ni[d];
-            let indices: Vec<u16> = (0..ni).map(|_| if vc == 0 { 0 } else { rng.below(vc as u64) as u16 }).collect();
+            let indices: Vec<u16> = (0..ni).map(|_| if vc == 0 { if rng.chance(1, 2) { 0 } else { 1 + rng.below(65535) as u16 } } else { rng.below(vc as u64) as u16 }).collect();
             // contiguous split over the existing sub-meshes
             let nsub = mesh.subs.len();
             let mut cuts: Vec<usize> = (0..nsub.saturating_sub(1)).map(|_| rng.below((ni + 1) as u64) as usize).collect();
@@ -227,7 +227,7 @@ fn gen_history_keep(rng: &mut Rng, m: &mut GModel) -> Vec<String> {
     let (vc, ni) = if d == 0 { (mesh.vcount as usize, mesh.indices.len()) } else { (rng.range(0, 60) as usize, rng.below(100) as usize) };
     let strides: Vec<u8> = mesh.streams.iter().map(|x| x.0).collect();
     let streams = canonical_streams(rng, &mesh.decl, &strides, vc);
-    let indices: Vec<u16> = (0..ni).map(|_| if vc == 0 { 0 } else { rng.below(vc as u64) as u16 }).collect();
+    let indices: Vec<u16> = (0..ni).map(|_| if vc == 0 { if rng.chance(1, 2) { 0 } else { 1 + rng.below(65535) as u16 } } else { rng.below(vc as u64) as u16 }).collect();
     let nsub = mesh.subs.len();
     let mut cuts: Vec<usize> = (0..nsub.saturating_sub(1)).map(|_| rng.below((ni + 1) as u64) as usize).collect();
     cuts.sort();
